@@ -192,6 +192,37 @@ PROPS = {
 
 
 
+PROPS["C13"] = {
+    "level": "other",
+    "design_ref": "DESIGN.md §3 C13",
+    "technique": "inductive one-step contracts of the real serialize_record_value from every well-formed state shape of a 3-field record (states built in place), Kani; end() on its error paths",
+    "level_text": "Bounded deductive check, exhaustive at its size: the record serializer's core step serialize_record_value is verified from EVERY well-formed (state shape, presented index) pair of a "
+                  "3-field record (17 pairs; buffered bytes, value and pool content symbolic): the next expected field is written followed by every contiguous already-buffered successor in schema order, "
+                  "current_idx / expected_fields advance in step, non-contiguous buffers are kept, a later field is buffered without output, a field presented twice is Err. Because each step is proved "
+                  "from any state shape and re-establishes the invariant, any presentation order of the three fields is covered. end(): only the missing-required-field error paths are discharged.",
+    "level_note": "The name->index step field_idx is HashMap-based and NOT under contract (A2): the step takes the index it would yield. end()'s Ok paths (omitted nullable field encoded as null, "
+                  "remaining buffers flushed) exceed 24 GB of solver memory and are not decided; records with more than 3 fields, nested records, the SerializeMap presentation are not covered. A1 A2 A4 A8 A10.",
+    "assumptions": [A1, A2, A4, A7, A8],
+    "explanation": "Invariant INV of RecordState: current_idx <= n, expected_fields == fields[current_idx..], buffers[i] is None for i <= current_idx. 17 step harnesses + 2 end() error-path harnesses; "
+                   "each asserts INV afterwards and that every buffer returned to the pool is empty.",
+    "not_decided": ["field_idx (name lookup; unknown / duplicate detection by name)", "end(): omitted null / union-with-null fields encoded as the null branch; flushing of remaining buffers on the Ok path",
+                    "records with more than 3 fields; nested out-of-order records sharing the pool; map presentation"],
+}
+
+PROPS["C14"] = {
+    "level": "other",
+    "design_ref": "DESIGN.md §3 C14",
+    "technique": "representation invariant of the configuration's buffer pools (every pooled buffer empty) asserted after every step contract of the record serializer, incl. a failing end() with a pending buffer (Drop path), Kani",
+    "level_text": "Bounded deductive check of the invariant that makes reuse safe: after every one of the 17 serialize_record_value step shapes (pool initially empty or holding a recycled buffer) and after "
+                  "end() failing with a field still buffered (the buffer is handed back by KindRecord::drop), every buffer sitting in the configuration's pools is empty - so the `assert!(v.is_empty())` "
+                  "guarding the next pop cannot fire and no stale bytes can reach a later record. Since every step re-establishes the invariant from an arbitrary pool satisfying it, histories of any length follow.",
+    "level_note": "The probe-equality formulation (used configuration vs fresh configuration on whole serializations) does not finish under CBMC and is replaced by the invariant; the buffered-bytes "
+                  "sequence path (seq_or_tuple.rs buffered_bytes / Drop) and sink I/O errors are not covered; Drop on the success path and end()'s Ok paths are not decided. A1 A2 A4 A8.",
+    "assumptions": [A1, A2, A4, A7, A8],
+    "explanation": "pool_wf := all of field_reordering_buffers and field_reordering_super_buffers are empty vectors. Asserted at the end of every harness of unit record_steps.",
+    "not_decided": ["whole-serialization probe equality on a reused configuration", "seq_or_tuple::buffered_bytes pool use", "failures injected by the sink", "Drop after a successful end()"],
+}
+
 PROPS["C06"] = {
     "level": "proof",
     "design_ref": "DESIGN.md §3 C06",
@@ -207,9 +238,8 @@ PROPS["C06"] = {
                     "metadata order / extra keys on the read side"],
 }
 
+
 NOT_APPLICABLE = [
-    {"property_id": "C13", "reason": "attempted and withdrawn: contracts on the real record serializer (serialize_record_value / end / Drop over every presentation of a 3-field record) do not finish under CBMC - not even a single concrete out-of-order presentation in 600 s (heap manipulation of the pooled Vec<Option<Vec<u8>>>); the name->index lookup (field_idx) is HashMap-based and would have been assumed anyway; Verus accepts neither the serde traits nor the closures involved. Attempted contracts are kept in contracts/kani/_attic_record.rs"},
-    {"property_id": "C14", "reason": "depends on the same record-serializer contracts as C13 (pool invariant after every history + probe equality), which do not finish under CBMC; a syntactic scan of the sites touching the pools would not be a deductive check"},
     {"property_id": "C19", "reason": "attempted and withdrawn: the real canonical-form traversal over a heap-allocated node vector does not finish under CBMC even for the concrete one-node graph (node kinds read back from the heap are not constant-folded, the recursion is unwound ~10 call sites per level); text parsing is serde_json. The defect this property exposes (F4: stack overflow on unnamed cycles) was found by running the real crate and is fixed in /repo (3ef4cc7)"},
     {"property_id": "C10", "reason": "contract-based verification decides properties of one call; this property quantifies over API histories, drop orders and thread interleavings, and Kani has no threads. The one sub-claim with a function boundary - the unsafe constructor Schema::try_from on bounded graphs - needs canonical_form/serialize_to_json stubbed and unions/records excluded (their construction hashes) and was not built; every other harness dereferences NodeRefs under Kani's pointer checks, which is supporting evidence only"},
     {"property_id": "C05", "reason": "quantifies over external compression libraries (miniz_oxide via flate2; bzip2/xz/zstd/snappy are FFI or not compiled by the pinned default-feature build): no contract within reach of Kani/Verus can state inflate(deflate(x)) == x, and assuming it leaves nothing of the property to decide; the repository-side framing obligations are discharged under C06/C15/C17 for the null codec"},
